@@ -1,8 +1,31 @@
 package main
 
+import (
+	"fmt"
+	"os"
+	"path/filepath"
+	"sort"
+)
+
 // Property-specific extensions (filled in per property).
 
-func installPropertyHooks(w *World, prop string) {}
+func installPropertyHooks(w *World, prop string) {
+	w.isaTable = map[string]*IsaEntry{}
+	files, _ := filepath.Glob("/verif/spec/*.isa")
+	sort.Strings(files)
+	for _, f := range files {
+		t, err := parseIsaFile(f)
+		if err != nil {
+			fmt.Fprintln(os.Stderr, "isa table error:", err)
+			os.Exit(2)
+		}
+		for k, v := range t {
+			w.isaTable[k] = v
+		}
+	}
+	w.genericPre = append(w.genericPre, isaPre)
+	w.genericPost = append(w.genericPost, isaObligations)
+}
 
 func propertyObligations(w *World, o checkOpts, mine []*Contract) []*Obligation { return nil }
 
